@@ -76,7 +76,10 @@ def make_coordinate(name, dim, levels, positive, deep_first, with_bounds, offset
         physical = physical[::-1]
     sign = -1.0 if positive == 'up' else 1.0          # attribute absent: positive values, i.e. 'down'
     values = np.array([layer_value(p, sign, offset) for p in physical])
-    attrs = {'long_name': 'depth', 'standard_name': 'depth'}
+    attrs = {'long_name': 'depth', 'standard_name': 'depth',
+             # numeric attributes arrive from netCDF files as numpy arrays / scalars
+             'valid_range': np.array([-100.0, 100.0]), 'actual_range': np.array([float(values.min()), float(values.max())]),
+             'valid_max': np.float64(100.0)}
     if positive is not None:
         attrs['positive'] = positive
     bounds_var = None
@@ -205,10 +208,16 @@ def run_case(case):
     initial = {n: (ds[n].attrs.get('positive'), False, layers_of(ds, info[n])[0] != 0) for n in info}
     snapshot = ds.copy(deep=True)
 
-    def normalise(dataset, p, d):
+    forms = {
+        'list': lambda: list(names), 'tuple': lambda: tuple(names), 'generator': lambda: (n for n in names),
+        'iterator': lambda: iter(names), 'map': lambda: map(str, names), 'arrays': lambda: [ds[n] for n in names],
+    }
+
+    def normalise(dataset, p, d, form='list'):
         with warnings.catch_warnings():
             warnings.simplefilter('ignore')
-            return lib(depth.normalize_depth_variables, dataset, names, positive_down=p, deep_to_shallow=d)
+            coordinates = forms[form]() if form != 'arrays' else [dataset[n] for n in names]
+            return lib(depth.normalize_depth_variables, dataset, coordinates, positive_down=p, deep_to_shallow=d)
 
     for p1, d1 in itertools.product(OPTIONS, OPTIONS):
         label1 = f"normalize(positive_down={p1}, deep_to_shallow={d1})"
@@ -223,6 +232,14 @@ def run_case(case):
             rec.nontrivial((p1, d1))
         check_state(rec, fp, label1, once, info, expected1)
         rec.check(ds.identical(snapshot), f"{fp}/input-modified", f"{label1}: the input dataset was modified", 'unchanged', 'changed')
+        # the documented argument type is "iterable of names or data arrays": every form gives the same result
+        for form in ('tuple', 'generator', 'iterator', 'map', 'arrays'):
+            try:
+                other = normalise(ds, p1, d1, form)
+                rec.check(other.identical(once), f"{fp}/argument-form", f"{label1}: depth coordinates given as a {form} give another result than as a list",
+                          'identical', 'different')
+            except LibraryRaised as err:
+                rec.check(False, f"{fp}/argument-form", f"{label1}: depth coordinates given as a {form} raised", 'dataset', str(err))
         for p2, d2 in itertools.product(OPTIONS, OPTIONS):
             label2 = f"{label1} then normalize({p2}, {d2})"
             try:
